@@ -734,4 +734,4 @@ impl ProbeSequence {
 
 #[cfg(kani)]
 #[path = "/verif/units/kani/bitbox_mod.rs"]
-mod verif_kani;
+pub(crate) mod verif_kani;
